@@ -45,6 +45,10 @@ fn single(prog: &str) {
 }
 
 fn main() {
+    if let Ok(p) = std::env::var("C05_BIG") {
+        bigrun::single(&p);
+        return;
+    }
     if let Ok(p) = std::env::var("C05_PROG") {
         single(&p);
         return;
